@@ -928,13 +928,15 @@ reset_match_history(struct isal_zstream *stream)
         if (hash_table_size <= sizeof(wchar_t))
                 hash_table_size = sizeof(wchar_t);
 
-        if (sizeof(wchar_t) == 2) {
+        /* wmemset needs a wchar_t aligned table; the level buffer is a caller
+         * supplied byte buffer with no documented alignment */
+        if (sizeof(wchar_t) == 2 && (uintptr_t) hash_table % sizeof(wchar_t) == 0) {
                 uint16_t hash_init_val;
 
                 hash_init_val = stream->total_in & 0xffff;
                 wmemset((wchar_t *) hash_table, hash_init_val, hash_table_size / sizeof(wchar_t));
 
-        } else if (sizeof(wchar_t) == 4) {
+        } else if (sizeof(wchar_t) == 4 && (uintptr_t) hash_table % sizeof(wchar_t) == 0) {
                 uint32_t hash_init_val;
                 int rep_bits;
 
